@@ -65,13 +65,18 @@ SelectSeqIdx(s, I) == LET RECURSIVE F(_)
                           F(i) == IF i > Len(s) THEN <<>> ELSE (IF i \in I THEN <<s[i]>> ELSE <<>>) \o F(i + 1)
                       IN  F(1)
 
+RECURSIVE SortIdx(_, _)
+SortIdx(ns, I) == IF I = {} THEN <<>>
+                  ELSE LET i == CHOOSE x \in I : \A y \in I : ns[x] <= ns[y] IN <<i>> \o SortIdx(ns, I \ {i})
 CommitNI(sm, c, ns, d, exps, requireAll, e) ==
   LET okIdx == {i \in 1..Len(ns) : exps[i] - e >= MinLife /\ exps[i] - e <= MaxLife}
       dupOrUsed == \E i \in 1..Len(ns) : ns[i] \in sm.alloc \/ \E j \in 1..Len(ns) : i # j /\ ns[i] = ns[j]
   IN  IF c \notin {"owner", "worker"} \/ Len(ns) = 0 \/ d >= D \/ ~Mutable(sm, d, e) \/ dupOrUsed THEN Fail(sm)
       ELSE IF okIdx = {} \/ (requireAll /\ okIdx # 1..Len(ns)) THEN Fail(sm)
-      ELSE LET sel == SelectSeqIdx(ns, okIdx)
-               sx == SelectSeqIdx(exps, okIdx)
+      \* (the accepted sectors are assigned to partitions in order of sector number, not in the order given)
+      ELSE LET ord == SortIdx(ns, okIdx)
+               sel == [k \in 1..Len(ord) |-> ns[ord[k]]]
+               sx == [k \in 1..Len(ord) |-> exps[ord[k]]]
                sm1 == PlaceAll(sm, sel, d, sx, 1)
            IN  [ok |-> TRUE, SM |-> [sm1 EXCEPT !.alloc = @ \cup {ns[i] : i \in 1..Len(ns)}, !.cron = TRUE]]
 
@@ -189,7 +194,9 @@ TickN(sm, e, n) == IF n = 0 THEN sm ELSE TickN(TickOne(sm, e), e + 1, n - 1)
 Abs(sm) == [sec |-> [n \in Nos(sm) |-> [st |-> St(sm, n), d |-> sm.sec[n].d, p |-> sm.sec[n].p,
                                          exp |-> IF St(sm, n) = "term" THEN 0 ELSE sm.sec[n].exp,
                                          due |-> IF St(sm, n) \in Live THEN DueAt(sm, n) ELSE 0]],
-            posted |-> sm.posted, alloc |-> sm.alloc, cron |-> sm.cron]
+            \* (whether the deadline cron keeps running depends on the miner's money -- it stops once nothing is
+            \* pledged, deposited or vesting -- which this model does not have: not compared)
+            posted |-> sm.posted, alloc |-> sm.alloc]
 
 -----------------------------------------------------------------------------
 (* design-level invariants checked by TLC on the bounded model (MC_Sectors) *)
